@@ -313,3 +313,87 @@ func (c *Ctx) ruleFeatureInherit(rule string, floor int) {
 		R.Check(ok && handled["File"] && handled["Message"] && bound != "", rule, key+" parent switch", P.Pos(ts), "File and Message parents hand back their own L1.EditionFeatures", "the inheritance helper does not return the parent's own resolved features for both parent kinds (file, message)")
 	}
 }
+
+// R-DEFAULTS-IMMUTABLE: getFeatureSetFor hands out the process-wide cached
+// default FeatureSet of an edition (the same pointer to every caller). A caller
+// that writes to it (proto.Merge into it, Reset, Unmarshal into it, a field
+// assignment) changes the defaults every later file of that edition resolves
+// from: the first file's overrides leak into unrelated files.
+func (c *Ctx) ruleDefaultsImmutable(rule string) {
+	R, P := c.R, c.P
+	R.Rule(rule, "outside getFeatureSetFor, no value obtained from reflect/protodesc.getFeatureSetFor is the destination of proto.Merge / proto.Reset / proto.Unmarshal(Options) or the base of a field assignment", 1)
+	n := 0
+	for _, fi := range P.FuncsIn("reflect/protodesc") {
+		if fi.Decl.Body == nil || fi.Obj.Name() == "getFeatureSetFor" {
+			continue
+		}
+		info := fi.Info()
+		shared := map[types.Object]bool{}
+		isShared := func(e ast.Expr) bool {
+			switch x := unparen(e).(type) {
+			case *ast.Ident:
+				return shared[info.Uses[x]]
+			case *ast.CallExpr:
+				return calleeKey(info, x) == "reflect/protodesc.getFeatureSetFor"
+			}
+			return false
+		}
+		for changed := true; changed; {
+			changed = false
+			walkAll(fi.Decl.Body, func(m ast.Node) bool {
+				as, ok := m.(*ast.AssignStmt)
+				if !ok || len(as.Lhs) != len(as.Rhs) {
+					return true
+				}
+				for i := range as.Lhs {
+					if isShared(as.Rhs[i]) {
+						if o := objOf(info, as.Lhs[i]); o != nil && !shared[o] {
+							shared[o] = true
+							changed = true
+						}
+					}
+				}
+				return true
+			})
+		}
+		uses := 0
+		walkAll(fi.Decl.Body, func(m ast.Node) bool {
+			if call, ok := m.(*ast.CallExpr); ok && calleeKey(info, call) == "reflect/protodesc.getFeatureSetFor" {
+				uses++
+			}
+			return true
+		})
+		if uses == 0 {
+			continue
+		}
+		n++
+		bad, pos := "", ""
+		walkAll(fi.Decl.Body, func(m ast.Node) bool {
+			switch x := m.(type) {
+			case *ast.CallExpr:
+				k := calleeKey(info, x)
+				switch {
+				case (k == "proto.Merge" || k == "proto.Reset") && len(x.Args) >= 1 && isShared(x.Args[0]):
+					bad, pos = k+" writes into it", P.Pos(x)
+				case (k == "proto.Unmarshal" || k == "proto.UnmarshalOptions.Unmarshal") && len(x.Args) == 2 && isShared(x.Args[1]):
+					bad, pos = k+" decodes into it", P.Pos(x)
+				}
+			case *ast.AssignStmt:
+				for _, l := range x.Lhs {
+					if se, ok := unparen(l).(*ast.SelectorExpr); ok && isShared(se.X) {
+						bad, pos = "field "+se.Sel.Name+" is assigned", P.Pos(x)
+					}
+				}
+			}
+			return true
+		})
+		if bad != "" {
+			R.Bad(rule, fi.Key+" cached defaults", pos, "the FeatureSet returned by getFeatureSetFor is the cached default shared by all files of the edition, and "+bad+": the overrides of the file being built become the defaults of every file of that edition built later in the process")
+		} else {
+			R.OK(rule, fi.Key+" cached defaults", P.Pos(fi.Decl), "read only")
+		}
+	}
+	if n == 0 {
+		R.Unk(rule, "getFeatureSetFor users", "", "no caller of getFeatureSetFor found")
+	}
+}
